@@ -120,6 +120,10 @@ FAULT = {
                                           '<{p}param name="Y" type="float"/><{p}param name="Z" type="float"/></{p}accessor></{p}technique_common></{p}source>'
                                           '<{p}vertices id="{id}-v"><{p}input semantic="POSITION" source="#{id}-p"/></{p}vertices></{p}mesh></{p}geometry>'),
 }
+# a fault the loader REPORTS through handleError and then goes on with the same item (kept when the class is masked): an input of unknown semantic
+FAULT[('geometries', 'DaeUnsupportedError~')] = VALID['geometries'].replace(
+    '<{p}input semantic="VERTEX" source="#{id}-v" offset="0"/><{p}p>{perm}</{p}p></{p}triangles>',
+    '<{p}input semantic="VERTEX" source="#{id}-v" offset="0"/><{p}input semantic="WEIGHT_MAP" source="#{id}-p" offset="0"/><{p}p>{perm}</{p}p></{p}triangles>')
 FAULTS_OF = {}
 for (_l, _c) in FAULT:
     FAULTS_OF.setdefault(_l, []).append(_c)
@@ -407,6 +411,7 @@ def query(d):
     def prim(p, tag):
         try:
             out.append('%s %s len=%d vi=%s v=%s' % (tag, type(p).__name__, len(p), arr(getattr(p, 'vertex_index', None)), arr(getattr(p, 'vertex', None))))
+            out.append('%s inputs=%d' % (tag, len(p.getInputList().getList())))
             if hasattr(p, 'triangleset'):
                 ts = p.triangleset()
                 out.append('%s triangleset %s len=%d vi=%s' % (tag, type(ts).__name__, len(ts), arr(getattr(ts, 'vertex_index', None))))
@@ -414,6 +419,15 @@ def query(d):
                 out.append('%s first=%s' % (tag, arr(getattr(p[0], 'vertices', None))))
         except Exception as e:
             out.append('%s raised %s' % (tag, type(e).__name__))
+    # building a new input list for this document (the documented first step of adding a primitive): what it accepts is fixed by the library
+    from collada import source as _source
+    for sem in ('VERTEX', 'TEXCOORD', 'WEIGHT_MAP', 'JOINT'):
+        try:
+            il = _source.InputList()
+            il.addInput(0, sem, '#probe')
+            out.append('inputlist %s accepted (%d inputs)' % (sem, len(il.getList())))
+        except Exception as e:
+            out.append('inputlist %s raised %s' % (sem, type(e).__name__))
     for gi, g in enumerate(d.geometries):
         for pi, p in enumerate(g.primitives):
             prim(p, 'g%d.p%d' % (gi, pi))
